@@ -103,6 +103,7 @@ type dsWorld struct {
 	passedSem      map[int64]bool
 	semStep        map[int64]int64
 	asyncFor       map[int64]string  // async goroutine -> publisher
+	lockEv         []lockEvent       // sync.lock releases (a sync enters the sync proper)
 	latestAtTook   map[int64]cid.Cid // async goroutine -> latest-sync when it took its announcement
 	tookStep       map[int64]int64
 	asyncStarted   map[int64]int64 // async goroutine that entered the sync proper -> step
@@ -301,7 +302,15 @@ func runDsync(r *simkit.Run, c Cfg, mode dsMode) {
 		// syncs that outlast the idle-handler TTL
 		delays, delayNum = true, 3
 	}
+	// in a quarter of the C08 runs the publisher now and then answers a block
+	// request with 404: that sync must fail (error notification), not end
+	// as a success that skipped a part of the chain
+	notFound := mode.name == "c08" && !mode.directed && tp.Chance(1, 4, "notfound?")
 	w.Net.Policy = func(q *simkit.ReqRecord) simkit.FaultSpec {
+		if notFound && strings.Contains(q.Path, "/ipni/v1/ad/") && !strings.HasSuffix(q.Path, "/head") && tp.Chance(1, 10, "notfound") {
+			r.Fault("block-not-found")
+			return simkit.FaultSpec{Kind: simkit.FStatus, Code: 404}
+		}
 		if delays && tp.Chance(delayNum, 4, "delay?") {
 			return simkit.FaultSpec{Kind: simkit.FDelay, Delay: time.Duration(1+tp.Choose(9, "delayS"))*time.Second + jitter(tp)} // a tie with a time-out would be a runtime coin
 		}
@@ -514,6 +523,7 @@ func runDsync(r *simkit.Run, c Cfg, mode dsMode) {
 		case "sync.lock":
 			return &simkit.Action{Name: "release sync.lock|" + p.Who, Weight: 2, Do: func() {
 				d.holder[p.Who] = p.GID
+				d.lockEv = append(d.lockEv, lockEvent{p.GID, r.Step()})
 				if _, ok := d.asyncFor[p.GID]; ok {
 					// an announce-triggered sync that found work to do
 					d.asyncStarted[p.GID] = r.Step()
@@ -803,6 +813,11 @@ type syncKey struct {
 	op  int
 }
 
+type lockEvent struct {
+	gid  int64
+	step int64
+}
+
 type syncRec struct {
 	key      syncKey
 	pub      string
@@ -883,6 +898,58 @@ func mixedSyncs(order []*syncRec, pub string) bool {
 	return exp && n >= 2
 }
 
+// d8Applies says whether the known finding D8 can have shaped what the
+// syncs of one publisher reported. D8 needs an explicit sync and (a) a sync
+// that read its stop point (an explicit sync when it is called, an
+// announce-triggered one when it takes its announcement) and then entered the
+// sync proper after another sync of the publisher that was still active at
+// the time of that read - the stop point is stale -, or (b) an
+// announce-triggered sync whose announced head was older than latest-sync
+// when it took the announcement - the overtaken head is walked again.
+func (d *dsWorld) d8Applies(order []*syncRec, pub *PubNode) bool {
+	if !mixedSyncs(order, pub.Name) {
+		return false
+	}
+	lockOf := func(s *syncRec) int64 {
+		for _, e := range d.lockEv {
+			if e.gid == s.key.gid && e.step >= s.start && e.step <= s.end {
+				return e.step
+			}
+		}
+		return -1
+	}
+	var ss []*syncRec
+	for _, s := range order {
+		if s.pub == pub.Name {
+			ss = append(ss, s)
+		}
+	}
+	for _, s := range ss {
+		lock := lockOf(s)
+		if lock < 0 {
+			continue
+		}
+		read := s.start
+		if !s.explicit {
+			if t, ok := d.tookStep[s.key.gid]; ok {
+				read = t
+			}
+			if at, ok := d.latestAtTook[s.key.gid]; ok && at.Defined() && len(s.calls) > 0 && pub.AdIndex(s.calls[0].Cid) < pub.AdIndex(at) {
+				return true // (b)
+			}
+		}
+		for _, y := range ss {
+			if y == s {
+				continue
+			}
+			if yl := lockOf(y); yl >= 0 && yl < lock && y.end >= read {
+				return true // (a)
+			}
+		}
+	}
+	return false
+}
+
 func (d *dsWorld) finalChecks() {
 	r, w, o := d.r, d.w, d.mode.name
 	closed := d.closeCalled
@@ -935,9 +1002,11 @@ func (d *dsWorld) finalChecks() {
 		}
 		hs := perPub[pub.Name]
 		stale := ""
-		if mixedSyncs(order, pub.Name) {
+		if d.d8Applies(order, pub) {
 			stale = " [mixed explicit/announce syncs of this publisher: the stop point is read before the per-publisher lock is free, and an announced head already overtaken by an explicit sync is walked again]"
-			r.Probe("explicit-and-announce-syncs-mixed")
+			r.Probe("known-finding-precondition-met")
+		} else if mixedSyncs(order, pub.Name) {
+			r.Probe("explicit-and-announce-syncs-mixed-without-known-finding-precondition")
 		}
 		// hook calls of different syncs never interleave; each sync's calls
 		// are a contiguous newest-to-oldest chain segment
